@@ -334,7 +334,13 @@ func (f *format) decCase(r *rng) string {
 		kind = "B"
 	}
 	bufsize := []int{1, 2, 3, 4, 7, 8, 16, 64}[r.n(8)]
-	steps := r.readScript(doc, bufsize)
+	scriptSize := bufsize
+	if r.chance(1, 40) {
+		// a degenerate buffer size: the decoder must fall back to a buffer of its own choosing
+		bufsize = []int{0, -1}[r.n(2)]
+		scriptSize = 64
+	}
+	steps := r.readScript(doc, scriptSize)
 	if kind == "B" {
 		steps = []readStep{{data: doc}}
 	}
